@@ -12,6 +12,9 @@ CONSTANTS
   MaxCalls = 3
   NDuties = 3
   SlotGaps = {1, 4}
+  MaxOpen = 1
+  MaxInFlight = 1
+  InitCfgs <- AllCfgs
   LaterAllChoices = {{}, {1}}
   LaterVersions = {"altair", "deneb"}
   LaterOutcomes = {"full", "err", "never"}
